@@ -219,8 +219,8 @@ impl Rig {
         self.val.set_current_rdh(&rdh, self.rdh_off);
     }
     pub fn reset(&mut self) {
-        self.fsm.reset_fsm();
-        self.val.reset_fsm();
+        let _ = self.fsm.reset_fsm();
+        let _ = self.val.reset_fsm();
         self.model = M::ExpIhw;
     }
     pub fn pair(&self) -> (u8, M) {
